@@ -273,6 +273,15 @@ pub fn replay_value(case: &serde_json::Value) -> Result<(Option<Violation>, Stri
             let (v, h) = replay_seq(&pc, &c);
             Ok((v, hex(h)))
         },
+        "TRACE" => {
+            // re-generated from the seed (hang / crash witnesses of the non-SEQ worlds)
+            let tier = case.get("tier").and_then(|t| t.as_str()).unwrap_or("quick");
+            let seed = case.get("seed").and_then(|t| t.as_u64()).unwrap_or(1);
+            let run = case.get("run").and_then(|t| t.as_u64()).unwrap_or(0);
+            let mut st = Stats::default();
+            let f = run_index(&prop, tier, seed, run, &mut st, &|_| false);
+            Ok((f.map(|f| f.violation), String::new()))
+        },
         "CONC" => conc::replay(case),
         "DIFF" => diffw::replay(case),
         "ENV" => envw::replay(case),
@@ -322,6 +331,11 @@ pub fn worker(a: &[String]) -> i32 {
     while idx < end {
         // the watchdog reads this value back as "the run that hangs"
         PROGRESS.store(idx + 1, Ordering::Relaxed);
+        {
+            // and the supervisor learns from the last marker which run killed a worker
+            let mut o = out.lock();
+            let _ = writeln!(o, "R {}", idx);
+        }
         if let Some(f) = run_index(id, tier, seed, idx, &mut stats, &known) {
             let mut o = out.lock();
             let _ = writeln!(o, "{}", json!({"t": "viol", "run": idx, "violation": f.violation, "case": f.case}));
@@ -361,7 +375,7 @@ fn self_exe() -> std::path::PathBuf {
 enum WorkerEnd {
     Done { stats: Stats },
     Hang { run: u64 },
-    Crashed { code: Option<i32>, stderr: String },
+    Crashed { code: Option<i32>, stderr: String, last_run: Option<u64> },
 }
 
 fn spawn_worker(id: &str, tier: &str, seed: u64, start: u64, stride: u64, end: u64) -> std::thread::JoinHandle<(Vec<(Violation, serde_json::Value)>, WorkerEnd)> {
@@ -387,7 +401,12 @@ fn spawn_worker(id: &str, tier: &str, seed: u64, start: u64, stride: u64, end: u
         });
         let mut viols = vec![];
         let mut end_state = None;
+        let mut last_run: Option<u64> = None;
         for line in BufReader::new(stdout).lines().map_while(Result::ok) {
+            if let Some(r) = line.strip_prefix("R ") {
+                last_run = r.parse().ok();
+                continue;
+            }
             let v: serde_json::Value = match serde_json::from_str(&line) {
                 Ok(v) => v,
                 Err(_) => continue,
@@ -414,13 +433,26 @@ fn spawn_worker(id: &str, tier: &str, seed: u64, start: u64, stride: u64, end: u
         // a worker that was killed or crashed cannot remove its private sandbox itself
         let _ = std::fs::remove_dir_all(format!("/dev/shm/rvsim-{}", pid));
         let err = errt.join().unwrap_or_default();
-        let end_state = end_state.unwrap_or(WorkerEnd::Crashed { code: status.and_then(|s| s.code()), stderr: err });
+        let end_state = end_state.unwrap_or(WorkerEnd::Crashed { code: status.and_then(|s| s.code()), stderr: err, last_run });
         (viols, end_state)
     })
 }
 
 /// Re-run one seed in trace mode in a fresh process to locate the step that does not return
-fn locate_hang(id: &str, tier: &str, seed: u64, run: u64) -> (Vec<serde_json::Value>, bool) {
+fn trace_case(id: &str, tier: &str, seed: u64, run: u64, ops: &[serde_json::Value], header: &Option<serde_json::Value>, sig: &str, what: &str) -> serde_json::Value {
+    let step = ops.len().saturating_sub(1);
+    match header {
+        // SEQ world: an explicit, generator-independent case
+        Some(h) => json!({"format":1, "property": id, "world": "SEQ", "seed": seed, "run": run,
+            "knobs": h["knobs"], "env": h["env"], "ops": ops.iter().map(|o| o["op"].clone()).collect::<Vec<_>>(),
+            "expect": {"sig": sig, "step": step}, "log_hash": "", "what": what}),
+        // other worlds: re-generated from the seed on replay
+        None => json!({"format":1, "property": id, "world": "TRACE", "seed": seed, "run": run, "tier": tier,
+            "ops": ops, "expect": {"sig": sig, "step": step}, "what": what}),
+    }
+}
+
+fn locate_hang(id: &str, tier: &str, seed: u64, run: u64) -> (Vec<serde_json::Value>, bool, Option<serde_json::Value>) {
     let mut child = Command::new(self_exe())
         .args(["trace", id, tier, &seed.to_string(), &run.to_string()])
         .stdout(Stdio::piped())
@@ -435,13 +467,17 @@ fn locate_hang(id: &str, tier: &str, seed: u64, run: u64) -> (Vec<serde_json::Va
         }
     });
     let mut ops = vec![];
+    let mut header = None;
     let mut finished = false;
     let mut last = Instant::now();
     loop {
         match rx.recv_timeout(Duration::from_millis(200)) {
             Ok(line) => {
                 last = Instant::now();
-                if let Some(rest) = line.strip_prefix("T ") {
+                if let Some(rest) = line.strip_prefix("T0 ") {
+                    header = serde_json::from_str::<serde_json::Value>(rest).ok();
+                    ops.clear();
+                } else if let Some(rest) = line.strip_prefix("T ") {
                     if let Ok(v) = serde_json::from_str::<serde_json::Value>(rest) {
                         ops.push(v);
                     }
@@ -462,7 +498,7 @@ fn locate_hang(id: &str, tier: &str, seed: u64, run: u64) -> (Vec<serde_json::Va
     let _ = child.kill();
     let _ = child.wait();
     let _ = std::fs::remove_dir_all(format!("/dev/shm/rvsim-{}", pid));
-    (ops, finished)
+    (ops, finished, header)
 }
 
 fn write_replay(id: &str, sig: &str, case: &serde_json::Value, dir: &str) -> String {
@@ -504,7 +540,8 @@ fn replay_child(path: &str, bound: Duration) -> Result<Option<String>, String> {
             return Ok(None);
         }
     }
-    Err(format!("replay produced no verdict: {}", s))
+    // the replaying process died without a verdict: the case kills its process
+    Ok(Some("crash".into()))
 }
 
 /// replay <file>: exit 1 + VIOLATION line when the recorded violation reproduces, 0 when not, 2 on harness error
@@ -546,7 +583,8 @@ pub fn replay_cmd(path: &str, inner: bool) -> i32 {
     match replay_child(path, Duration::from_secs(HANG_SECS)) {
         Ok(Some(sig)) => {
             let expected_hang = expect_sig.as_deref().map(|s| s.starts_with("hang|")).unwrap_or(false);
-            if Some(&sig) == expect_sig.as_ref() || (sig == "hang" && expected_hang) || expect_sig.is_none() {
+            let expected_crash = expect_sig.as_deref().map(|s| s.starts_with("crash|")).unwrap_or(false);
+            if Some(&sig) == expect_sig.as_ref() || (sig == "hang" && expected_hang) || (sig == "crash" && expected_crash) || expect_sig.is_none() {
                 println!("VIOLATION property={} replay={}", prop, path);
                 println!("  reproduced: {}", sig);
                 1
@@ -607,7 +645,7 @@ pub fn check(id: &str, tier: &str, extra: &[String]) -> i32 {
         let wpath = format!("{}/{}", VERIF_DIR, k.witness);
         let bound = if k.sig.starts_with("hang|") { Duration::from_secs(3) } else { Duration::from_secs(HANG_SECS) };
         match replay_child(&wpath, bound) {
-            Ok(Some(sig)) if sig == k.sig || (sig == "hang" && k.sig.starts_with("hang|")) => {
+            Ok(Some(sig)) if sig == k.sig || (sig == "hang" && k.sig.starts_with("hang|")) || (sig == "crash" && k.sig.starts_with("crash|")) => {
                 println!("KNOWN-FINDING: property={} {}", id, k.what);
                 known_lines.push(k.what.clone());
             },
@@ -637,7 +675,7 @@ pub fn check(id: &str, tier: &str, extra: &[String]) -> i32 {
             WorkerEnd::Done { stats } => total.merge(stats),
             WorkerEnd::Hang { run } => {
                 hangs += 1;
-                let (ops, finished) = locate_hang(id, tier, seed, run);
+                let (ops, finished, header) = locate_hang(id, tier, seed, run);
                 if finished {
                     // did not hang in a fresh process: machine stall, not a finding
                     eprintln!("note: watchdog fired for run {} but the run completes in trace mode; ignored", run);
@@ -645,9 +683,7 @@ pub fn check(id: &str, tier: &str, extra: &[String]) -> i32 {
                     let last = ops.last().cloned().unwrap_or(json!(null));
                     let label = last.get("label").and_then(|l| l.as_str()).unwrap_or("?").to_string();
                     let sig = format!("hang|{}", label);
-                    let case = json!({"format":1, "property": id, "world": "TRACE", "seed": seed, "run": run, "tier": tier,
-                        "ops": ops, "expect": {"sig": sig, "step": ops.len().saturating_sub(1)},
-                        "what": "operation does not return (watchdog)"});
+                    let case = trace_case(id, tier, seed, run, &ops, &header, &sig, "operation does not return (watchdog)");
                     let v = Violation { property: id.into(), oracle: "hang".into(), step: ops.len().saturating_sub(1), sig: sig.clone(), detail: format!("run {} never returns from {}", run, last) };
                     if known.known.iter().any(|k| k.property == id && k.sig == sig) {
                         *total.known_hits.entry(sig).or_insert(0) += 1;
@@ -659,9 +695,34 @@ pub fn check(id: &str, tier: &str, extra: &[String]) -> i32 {
                     pending.push((w, spawn_worker(id, tier, seed, run + workers, workers, runs)));
                 }
             },
-            WorkerEnd::Crashed { code, stderr } => {
-                eprintln!("HARNESS: worker {} died (code {:?}): {}", w, code, stderr);
-                exit = 2;
+            WorkerEnd::Crashed { code, stderr, last_run } => {
+                // a worker killed by the code under test (abort on a panic inside a destructor
+                // during unwinding, stack overflow ...) is a finding if it reproduces in isolation
+                let mut explained = false;
+                if let Some(run) = last_run {
+                    hangs += 1;
+                    let (ops, finished, header) = locate_hang(id, tier, seed, run);
+                    if !finished {
+                        let last = ops.last().cloned().unwrap_or(json!(null));
+                        let label = last.get("label").and_then(|l| l.as_str()).unwrap_or("?").to_string();
+                        let sig = format!("crash|{}", label);
+                        let case = trace_case(id, tier, seed, run, &ops, &header, &sig, "the process running the simulation dies inside this operation");
+                        let v = Violation { property: id.into(), oracle: "process-crash".into(), step: ops.len().saturating_sub(1), sig: sig.clone(), detail: format!("run {} kills its process in {} (exit {:?}) {}", run, last, code, stderr.lines().next().unwrap_or("")) };
+                        if known.known.iter().any(|k| k.property == id && k.sig == sig) {
+                            *total.known_hits.entry(sig).or_insert(0) += 1;
+                        } else {
+                            found.push((v, case));
+                        }
+                        explained = true;
+                        if hangs < 6 {
+                            pending.push((w, spawn_worker(id, tier, seed, run + workers, workers, runs)));
+                        }
+                    }
+                }
+                if !explained {
+                    eprintln!("HARNESS: worker {} died (code {:?}): {}", w, code, stderr);
+                    exit = 2;
+                }
             },
         }
     }
